@@ -226,6 +226,16 @@ class Db:
             if a.get("bad"):
                 pts.append("not a point")
             batch = pts if self.nops % 2 else iter(pts)        # a list or a plain iterable
+            if getattr(self, "reading_batches", False) and (a.get("producer") or self.nops % 4 == 2):
+                def producing(pts=pts):
+                    """a producer that looks at the database while it hands out the points: a partial read between
+                    two elements leaves the file position in the middle of the file"""
+                    for i, p in enumerate(pts):
+                        if i:
+                            it = iter(db)
+                            next(it, None)
+                        yield p
+                batch = producing()
             if via == "handle":
                 return target.insert_multiple(batch)
             return db.insert_multiple(batch, **mk)
@@ -332,6 +342,10 @@ class Db:
                 return "measurement", bad
             if slot == "tagkey":
                 return "tags", {bad: th.val("tag", 1)}
+            if slot == "tagkey_none":
+                return "tags", {bad: None}
+            if slot == "fieldkey_none":
+                return "fields", {bad: None}
             if slot == "tagvalue":
                 return "tags", {tk: bad}
             if slot == "fieldkey":
